@@ -24,13 +24,15 @@ Proof.
 Qed.
 
 Definition closedfl (cs : list crec) (fl : list bool) : Prop :=
-  forall c r b, zcreated fl c = true -> nth_error cs c = Some r -> In b (c_bases r) -> zcreated fl b = true.
+  forall c r b, zcreated fl c = true -> nth_error cs c = Some r -> c_inherit r = true -> In b (c_bases r) ->
+                zcreated fl b = true.
 
 Lemma zensure_length cs f : forall fl c, length (zensure_f cs f fl c) = length fl.
 Proof.
   induction f as [|f IH]; intros fl c; cbn [zensure_f]; auto.
   destruct (zcreated fl c); auto. destruct (nth_error cs c) as [r|]; auto.
-  rewrite length_upd. generalize fl. induction (c_bases r) as [|b l IHl]; intros fl0; cbn; auto.
+  rewrite length_upd. destruct (c_inherit r); auto.
+  generalize fl. induction (c_bases r) as [|b l IHl]; intros fl0; cbn; auto.
   rewrite IHl, IH. auto.
 Qed.
 
@@ -38,7 +40,8 @@ Lemma zensure_mono cs f : forall fl c d, zcreated fl d = true -> zcreated (zensu
 Proof.
   induction f as [|f IH]; intros fl c d H; cbn [zensure_f]; auto.
   destruct (zcreated fl c); auto. destruct (nth_error cs c) as [r|]; auto.
-  apply zcreated_upd_true. revert fl H. induction (c_bases r) as [|b l IHl]; intros fl0 H; cbn; auto.
+  apply zcreated_upd_true. destruct (c_inherit r); auto.
+  revert fl H. induction (c_bases r) as [|b l IHl]; intros fl0 H; cbn; auto.
   apply IHl. apply IH. auto.
 Qed.
 
@@ -47,23 +50,6 @@ Proof. induction l as [|b l IH]; intros fl d H; cbn; auto. apply IH. apply zensu
 
 Lemma fold_ensure_length cs f l : forall fl, length (fold_left (zensure_f cs f) l fl) = length fl.
 Proof. induction l as [|b l IH]; intros fl; cbn; auto. rewrite IH. apply zensure_length. Qed.
-
-Lemma zensure_exists cs f : forall fl c d,
-  zcreated (zensure_f cs f fl c) d = true -> zcreated fl d = true \/ d < length cs.
-Proof.
-  induction f as [|f IH]; intros fl c d H; cbn [zensure_f] in H; auto.
-  destruct (zcreated fl c) eqn:Ec; auto. destruct (nth_error cs c) as [r|] eqn:E; auto.
-  destruct (Nat.eq_dec c d) as [->|Hne]; [right; eapply nth_error_lt; eauto|].
-  unfold zcreated in H. rewrite nth_upd_ne in H by auto. fold (zcreated (fold_left (zensure_f cs f) (c_bases r) fl) d) in H.
-  revert fl H Ec. clear E. induction (c_bases r) as [|b l IHl]; intros fl0 H Ec; cbn in H; auto.
-  destruct (zcreated (zensure_f cs f fl0 b) c) eqn:E2.
-  - (* c became created by a base: still fine, use IH on the rest without the flag *)
-    assert (Hx : zcreated (zensure_f cs f fl0 b) d = true \/ d < length cs).
-    { clear IHl. revert H. generalize (zensure_f cs f fl0 b). induction l as [|b' l' IHl']; intros fl1 H; cbn in H; auto.
-      destruct (IHl' _ H) as [H1|H1]; auto. apply IH in H1. destruct H1; auto. }
-    destruct Hx as [Hx|Hx]; auto. apply IH in Hx. auto.
-  - destruct (IHl _ H E2) as [H1|H1]; auto. apply IH in H1. auto.
-Qed.
 
 (* with enough fuel, implementedBy(c) leaves c and everything it points to created *)
 Lemma zensure_closed cs : wf_classes cs -> forall f fl c,
@@ -85,13 +71,20 @@ Proof.
       - auto.
       - intros b' Hb'. apply Hbl. right; auto.
       - split; auto. intros b' [<-|Hb']; auto. apply fold_ensure_mono. auto. }
-    destruct (Hfold (c_bases r) fl Hlen Hcl) as [Hc1 Hall].
-    { intros b Hb'. split; auto. pose proof (W _ _ _ E Hb'). pose proof (nth_error_lt _ _ _ E). lia. }
+    set (fl1 := if c_inherit r then fold_left (zensure_f cs f) (c_bases r) fl else fl).
+    assert (H1 : closedfl cs fl1 /\ length fl1 = length fl /\
+                 (c_inherit r = true -> forall b, In b (c_bases r) -> zcreated fl1 b = true)).
+    { unfold fl1. destruct (c_inherit r) eqn:Ei.
+      - destruct (Hfold (c_bases r) fl Hlen Hcl) as [Hc1 Hall].
+        { intros b Hb'. split; auto. pose proof (W _ _ _ E Hb'). pose proof (nth_error_lt _ _ _ E). lia. }
+        split; [|split]; auto. apply fold_ensure_length.
+      - split; [|split]; auto. intros; discriminate. }
+    destruct H1 as [Hc1 [Hl1 Hall]].
     split.
-    + intros d rd b Hd Ed Hin. destruct (Nat.eq_dec c d) as [->|Hne].
+    + intros d rd b Hd Ed Hi Hin. destruct (Nat.eq_dec c d) as [->|Hne].
       * rewrite E in Ed. inversion Ed; subst. apply zcreated_upd_true. auto.
       * unfold zcreated in Hd. rewrite nth_upd_ne in Hd by auto. apply zcreated_upd_true. eapply Hc1; eauto.
-    + intros Hc. unfold zcreated. apply nth_upd_eq. rewrite fold_ensure_length. lia.
+    + intros Hc. unfold zcreated. apply nth_upd_eq. rewrite Hl1. lia.
   - split; auto. intros Hc. apply nth_error_None in E. lia.
 Qed.
 
@@ -101,7 +94,7 @@ Lemma zdirect_cdirect cs fl : closedfl cs fl -> forall f c, zcreated fl c = true
 Proof.
   intros Hcl. induction f as [|f IH]; intros c Hc; cbn [zdirect_f cdirect_f]; auto.
   rewrite Hc. destruct (nth_error cs c) as [r|] eqn:E; auto. f_equal.
-  destruct (c_inherit r); auto. apply flat_map_ext_in. intros b Hb. apply IH. eapply Hcl; eauto.
+  destruct (c_inherit r) eqn:Ei; auto. apply flat_map_ext_in. intros b Hb. apply IH. eapply Hcl; eauto.
 Qed.
 
 Lemma NoDup_dedup l : NoDup (dedup l).
@@ -112,7 +105,9 @@ Proof.
 Qed.
 
 (* ------------------------------------------------------------------ the invariant *)
-Definition dflt (r : crec) : Prop := c_decl r = [] /\ c_inherit r = true /\ c_cprov r = [].
+(* new-style: declared = (), inherit = cls; old-style attribute: inherit = None and the attribute's
+   interfaces; no class-object declaration either way *)
+Definition dflt (r : crec) : Prop := (c_inherit r = true -> c_decl r = []) /\ c_cprov r = [].
 
 Record zinv (z : zstate) : Prop := mkZinv {
   z_len : length (snd z) = length (classes (fst z));
@@ -175,7 +170,8 @@ Definition cshape (t : option cls) (cs cs' : list crec) : Prop :=
   length cs' = length cs /\
   forall d r', nth_error cs' d = Some r' ->
     exists r, nth_error cs d = Some r /\ c_bases r' = c_bases r /\ c_builtin r' = c_builtin r /\
-              (t <> Some d -> r' = r) /\ (c_builtin r = true -> c_cprov r' = c_cprov r).
+              (t <> Some d -> r' = r) /\ (c_builtin r = true -> c_cprov r' = c_cprov r) /\
+              (c_inherit r' = true -> c_inherit r = true).
 
 Lemma cshape_refl t cs : cshape t cs cs.
 Proof. split; auto. intros d r' E. exists r'. repeat split; auto. Qed.
@@ -183,17 +179,19 @@ Proof. split; auto. intros d r' E. exists r'. repeat split; auto. Qed.
 Lemma cshape_trans t a b c : cshape t a b -> cshape t b c -> cshape t a c.
 Proof.
   intros [L1 H1] [L2 H2]. split; [congruence|]. intros d r' E.
-  destruct (H2 d r' E) as [r1 [E1 [B1 [Bi1 [F1 P1]]]]]. destruct (H1 d r1 E1) as [r0 [E0 [B0 [Bi0 [F0 P0]]]]].
+  destruct (H2 d r' E) as [r1 [E1 [B1 [Bi1 [F1 [P1 I1]]]]]]. destruct (H1 d r1 E1) as [r0 [E0 [B0 [Bi0 [F0 [P0 I0]]]]]].
   exists r0. repeat split; try congruence.
   - intros Ht. rewrite (F1 Ht). auto.
   - intros Hb. rewrite P1 by congruence. auto.
+  - auto.
 Qed.
 
 Lemma cshape_upd cs c r r' :
   nth_error cs c = Some r -> c_bases r' = c_bases r -> c_builtin r' = c_builtin r ->
-  (c_builtin r = true -> c_cprov r' = c_cprov r) -> cshape (Some c) cs (upd cs c r').
+  (c_builtin r = true -> c_cprov r' = c_cprov r) -> (c_inherit r' = true -> c_inherit r = true) ->
+  cshape (Some c) cs (upd cs c r').
 Proof.
-  intros E Hb Hbi Hp. split; [apply length_upd|]. intros d rd Ed.
+  intros E Hb Hbi Hp Hinh. split; [apply length_upd|]. intros d rd Ed.
   apply nth_error_upd_inv in Ed. destruct Ed as [[-> [-> _]]|[Hne Ed]].
   - exists r. repeat split; auto. intros H; congruence.
   - exists rd. repeat split; auto.
@@ -219,7 +217,7 @@ Proof.
 Qed.
 
 Lemma step_cshape ev g st o :
-  (forall bs m bi, o <> NewClass bs m bi) -> cshape (touched o) (classes st) (classes (step ev g st o)).
+  (forall bs m bi old, o <> NewClass bs m bi old) -> cshape (touched o) (classes st) (classes (step ev g st o)).
 Proof.
   intros Hn. destruct o; cbn [step touched decl_class decl_target]; try apply cshape_refl.
   - exfalso. eapply Hn; eauto.
@@ -227,10 +225,10 @@ Proof.
   - destruct (nth_error (insts st) o); apply cshape_refl.
   - unfold class_implements. destruct (nth_error (classes st) c); [apply cshape_class_ordered|apply cshape_refl].
   - unfold class_only. destruct (nth_error (classes st) c) as [r|] eqn:E; [|apply cshape_refl].
-    eapply cshape_trans; [|apply cshape_class_ordered]. cbn [set_class classes]. apply cshape_upd with r; auto.
+    eapply cshape_trans; [|apply cshape_class_ordered]. cbn [set_class classes]. apply cshape_upd with r; auto; cbn; intros; discriminate.
   - unfold class_implements. destruct (nth_error (classes st) c); [apply cshape_class_ordered|apply cshape_refl].
   - unfold class_only. destruct (nth_error (classes st) c) as [r|] eqn:E; [|apply cshape_refl].
-    eapply cshape_trans; [|apply cshape_class_ordered]. cbn [set_class classes]. apply cshape_upd with r; auto.
+    eapply cshape_trans; [|apply cshape_class_ordered]. cbn [set_class classes]. apply cshape_upd with r; auto; cbn; intros; discriminate.
   - apply cshape_class_ordered.
   - apply (proj1 (directly_cshape g st t _)).
   - apply (proj1 (directly_cshape g st t _)).
@@ -299,33 +297,33 @@ Proof.
   intros I0. pose proof (zinv_pre_ensure z o I0) as I1. unfold zstep.
   pose proof (pre_ensure_fst z o) as Ef. set (z1 := pre_ensure z o) in *.
   destruct I1 as [L W Cl D B Ii Ic Nd].
-  destruct (match o with NewClass _ _ _ => true | _ => false end) eqn:Hnew.
+  destruct (match o with NewClass _ _ _ _ => true | _ => false end) eqn:Hnew.
   - destruct o; try discriminate. cbn [step fst snd]. split; cbn [fst snd classes insts].
     + rewrite !app_length, L. auto.
     + intros c r b Hc Hin. apply nth_error_snoc in Hc. destruct Hc as [[_ Hc]|[-> ->]]; [eapply W; eauto|].
       cbn in Hin. rewrite In_dedup in Hin. apply filter_In in Hin. destruct Hin as [_ Hin]. apply Nat.ltb_lt in Hin. auto.
-    + intros c r b Hc E Hin. rewrite zcreated_snoc_false in *. pose proof (zcreated_range _ _ Hc) as Hr.
+    + intros c r b Hc E Hi Hin. rewrite zcreated_snoc_false in *. pose proof (zcreated_range _ _ Hc) as Hr.
       rewrite nth_error_app1 in E by lia. eapply Cl; eauto.
     + intros c r E Hc. rewrite zcreated_snoc_false in Hc. apply nth_error_snoc in E.
-      destruct E as [[_ E]|[-> ->]]; [eauto|]. repeat split; auto.
+      destruct E as [[_ E]|[-> ->]]; [eauto|]. split; cbn; auto. destruct old; [discriminate|auto].
     + intros c r E Hb. apply nth_error_snoc in E. destruct E as [[_ E]|[-> ->]]; [eauto|]. auto.
     + intros i r k E Hp. rewrite zcreated_snoc_false. eauto.
     + intros i r E. rewrite app_length. apply Ic in E. lia.
     + intros c r E. apply nth_error_snoc in E. destruct E as [[_ E]|[-> ->]]; [eauto|]. cbn. apply NoDup_dedup.
-  - assert (Hn : forall bs m bi, o <> NewClass bs m bi) by (intros; intro; subst; discriminate).
+  - assert (Hn : forall bs m bi old, o <> NewClass bs m bi old) by (intros; intro; subst; discriminate).
     pose proof (step_cshape ev g (fst z1) o Hn) as [Hlen Hsh].
-    replace (match o with NewClass _ _ _ => snd z1 ++ [false] | _ => snd z1 end) with (snd z1)
+    replace (match o with NewClass _ _ _ _ => snd z1 ++ [false] | _ => snd z1 end) with (snd z1)
       by (destruct o; auto; discriminate).
     split; cbn [fst snd].
     + rewrite L. auto.
     + intros c r' b E Hin. destruct (Hsh c r' E) as [r [E0 [Hb _]]]. rewrite Hb in Hin. eapply W; eauto.
-    + intros c r' b Hc E Hin. destruct (Hsh c r' E) as [r [E0 [Hb _]]]. rewrite Hb in Hin. eapply Cl; eauto.
+    + intros c r' b Hc E Hi Hin. destruct (Hsh c r' E) as [r [E0 [Hb [_ [_ [_ Hinh]]]]]]. rewrite Hb in Hin. eapply Cl; eauto.
     + intros c r' E Hc. destruct (Hsh c r' E) as [r [E0 [_ [_ [Hsame _]]]]].
       rewrite Hsame; [eauto|]. intro Ht.
       assert (zcreated (snd z1) c = true).
       { apply touched_created; auto. rewrite <- Ef. eapply nth_error_lt; eauto. }
       congruence.
-    + intros c r' E Hb. destruct (Hsh c r' E) as [r [E0 [_ [Hbi [_ Hp]]]]]. rewrite Hp by congruence.
+    + intros c r' E Hb. destruct (Hsh c r' E) as [r [E0 [_ [Hbi [_ [Hp _]]]]]]. rewrite Hp by congruence.
       eapply B; eauto; congruence.
     + intros i r' k E Hp. destruct (step_insts _ _ _ _ _ _ E) as [[r [E0 [Hc [Hsame|[Ht Hl]]]]]|[c [-> [_ [_ Hnone]]]]].
       * rewrite Hc. apply (Ii i r k E0). congruence.
@@ -382,7 +380,7 @@ Proof.
     destruct (nth_error (classes (fst z)) c) as [r|] eqn:E; auto.
     destruct (zcreated (snd z) c) eqn:Ec; cbn [andb].
     + destruct (c_builtin r) eqn:Eb; cbn [negb]; auto. rewrite (z_builtin _ I _ _ E Eb). auto.
-    + destruct (z_default _ I _ _ E Ec) as [_ [_ Hp]]. rewrite Hp. auto.
+    + destruct (z_default _ I _ _ E Ec) as [_ Hp]. rewrite Hp. auto.
 Qed.
 
 Lemma zq_dpb_eq z t : zinv z -> zq_dpb z t = dpb (fst z) t.
@@ -391,7 +389,7 @@ Proof.
   destruct (nth_error (classes (fst z)) c) as [r|] eqn:E; auto.
   destruct (zcreated (snd z) c) eqn:Ec; cbn [andb].
   - destruct (c_builtin r) eqn:Eb; cbn [negb]; auto. rewrite (z_builtin _ I _ _ E Eb). auto.
-  - destruct (z_default _ I _ _ E Ec) as [_ [_ Hp]]. rewrite Hp. auto.
+  - destruct (z_default _ I _ _ E Ec) as [_ Hp]. rewrite Hp. auto.
 Qed.
 
 (* ------------------------------------------------------------------ histories with queries *)
@@ -451,9 +449,9 @@ Qed.
 Lemma lazy_invariant g qs :
   let z := zrun g qs in
   (forall c r, nth_error (classes (fst z)) c = Some r -> zcreated (snd z) c = false ->
-     c_decl r = [] /\ c_inherit r = true /\ c_cprov r = []) /\
-  (forall c r b, zcreated (snd z) c = true -> nth_error (classes (fst z)) c = Some r -> In b (c_bases r) ->
-     zcreated (snd z) b = true) /\
+     (c_inherit r = true -> c_decl r = []) /\ c_cprov r = []) /\
+  (forall c r b, zcreated (snd z) c = true -> nth_error (classes (fst z)) c = Some r -> c_inherit r = true ->
+     In b (c_bases r) -> zcreated (snd z) b = true) /\
   (forall o r k, nth_error (insts (fst z)) o = Some r -> i_prov r = Some k -> zcreated (snd z) (i_cls r) = true).
 Proof.
   intros z. pose proof (zrun_inv g qs) as I. fold z in I. split; [|split].
